@@ -116,4 +116,22 @@ theorem twoHopWith_nodup (hop1 hop2 : Bool) {g : TGraph} (hu : UniqEdges g) (n r
     subst hxy
     exact hab (hx.1.symm.trans hy.1)
 
+/-! ### the common prologue of the queries -/
+
+theorem prologue1 {α} {g : TGraph} {n : String} {f : List α} {l : List α}
+    (h : (do extract g; findNode g n; pure f : Except Err (List α)) = .ok l) :
+    n ∈ verts g ∧ l = f := by
+  unfold extract findNode at h
+  by_cases h1 : g.nodes.isEmpty = true <;> by_cases h2 : n ∈ verts g <;>
+    simp [h1, h2, bind, Except.bind, pure, Except.pure] at h
+  exact ⟨h2, h.symm⟩
+
+theorem prologue_ok {g : TGraph} {n : String} (hn : n ∈ verts g) :
+    extract g = .ok () ∧ findNode g n = .ok () := by
+  have hne : g.nodes.isEmpty = false := by
+    cases hg : g.nodes with
+    | nil => simp [verts, hg] at hn
+    | cons => rfl
+  simp [extract, findNode, hne, hn]
+
 end FimVerif.Query
